@@ -224,7 +224,7 @@ Proof.
   rewrite gen_track_a_drift_eq; cbv beta iota zeta. rewrite gen_particle_rf_time_eq.
   rewrite gen_track_a_drift_eq; cbv beta iota zeta.
   rewrite (gen_offset_particle_unset_eq _ _ _ _ _ _ _ 0 0); cbv beta iota zeta.
-  rewrite gen_bmad_to_cheetah_z_pz_eq. reflexivity.
+  rewrite gen_bmad_to_cheetah_z_pz_eq, ?pow2_Rsqr. reflexivity.
 Qed.
 
 (** ** cheetah/particles/beam.py, particle_beam.py: reference quantities, energies/momenta, SI conversions (Beam/SI.v) *)
